@@ -421,6 +421,13 @@ class MultiDatasetSignalGenerator(
                 )
                 n_events_arr[ds_idx] -= 1
 
+        if len(self._sig_generator_list) != len(n_events_arr):
+            raise ValueError(
+                'The number of signal generators '
+                f'({len(self._sig_generator_list)}) must match the number of '
+                f'datasets ({len(n_events_arr)})! Otherwise signal events '
+                'would get lost silently.')
+
         n_signal = 0
         signal_events_dict = {}
 
